@@ -183,7 +183,7 @@ func c09Faults(route int, bindPort bool) {
 	case 0:
 		_, err = env.u.SendUDP(addr, req)
 	case 1:
-		_, err = env.u.SendTCP(&net.TCPAddr{IP: addr.IP, Port: addr.Port}, req)
+		_, err = env.u.SendTCP(&net.TCPAddr{IP: addr.IP, Port: verifDialTarget()}, req)
 	case 2:
 		_, err = env.u.BroadcastTo(addr, req, c09Accept)
 	}
